@@ -51,10 +51,98 @@ const COUNTER_POINTS: &[&str] = &["dsd.counter.inc.after_mode_store", "dsd.count
 const ABS_POINTS: &[&str] = &["dsd.counter.abs.after_mode_swap", "dsd.counter.abs.after_last_store", "dsd.counter.abs.after_current_store"];
 const FLUSH_POINTS: &[&str] = &["dsd.counter.flush.after_current_load", "dsd.counter.flush.after_last_swap", "dsd.counter.flush.after_updates_swap", "dsd.gauge.flush.after_value_load"];
 
+/// One counter first driven by increments, then (after a flush) by absolute values: sequential, no races. The
+/// increments are accounted for before the switch; after it, the first absolute value is the baseline (nothing was
+/// added yet) and every later delta is the advance of the absolute value since the previous flush — no delta may
+/// exceed that, whatever total the increments had reached.
+fn mixed_mode(a: &Args, rep: &mut Report, r: &mut Rng) {
+    let trials = a.budget(300, 30_000);
+    for _ in 0..trials {
+        let aggressive = r.chance(1, 2);
+        let lp = r.chance(1, 2);
+        let mut driver = Driver::new(aggressive, false, 16, r.chance(1, 2), vec![], None, 8192, lp);
+        let rec = driver.recorder();
+        let c = rec.register_counter(&Key::from_name("cmix"), &MD);
+        let mut trace: Vec<String> = Vec::new();
+        let mut bad: Option<(String, String)> = None;
+        let mut flush_delta = |driver: &mut Driver, trace: &mut Vec<String>| -> Result<Option<u64>, String> {
+            let payloads = rt::catch(|| driver.flush()).map_err(|m| format!("flush panicked: {}", m))?;
+            let msgs = decode(&payloads, lp)?;
+            let mut d = None;
+            for m in msgs.iter().filter(|m| m.name == "cmix") {
+                let v: u64 = m.values.first().and_then(|x| x.parse().ok()).ok_or("counter value not an integer")?;
+                d = Some(d.unwrap_or(0) + v);
+            }
+            trace.push(format!("flush -> {:?}", d));
+            Ok(d)
+        };
+        // phase 1: increments
+        let mut total = 0u64;
+        for _ in 0..(1 + r.usize(4)) {
+            let k = 1 + r.below(100);
+            c.increment(k);
+            total += k;
+            trace.push(format!("increment({})", k));
+        }
+        let mut sent1 = 0u64;
+        for _ in 0..(1 + r.usize(2)) {
+            match flush_delta(&mut driver, &mut trace) {
+                Ok(d) => sent1 += d.unwrap_or(0),
+                Err(e) => bad = Some(("C10:undecodable-flush-output".into(), e)),
+            }
+        }
+        if bad.is_none() && sent1 != total {
+            bad = Some(("C10:counter-sum-differs".into(), format!("increments total {}, deltas sent {}", total, sent1)));
+        }
+        // phase 2: absolute values, starting below, at or above the total reached by increments
+        let mut v = match r.below(3) {
+            0 => r.below(total.max(1)),
+            1 => total,
+            _ => total + 1 + r.below(100),
+        };
+        let first = v;
+        let mut at_prev_flush = v; // absolute value accounted for so far (baseline at first)
+        c.absolute(v);
+        trace.push(format!("absolute({}) [first absolute value: baseline]", v));
+        let mut sent2 = 0u64;
+        for _ in 0..(2 + r.usize(4)) {
+            if bad.is_some() {
+                break;
+            }
+            for _ in 0..r.usize(3) {
+                v += r.below(20);
+                c.absolute(v);
+                trace.push(format!("absolute({})", v));
+            }
+            match flush_delta(&mut driver, &mut trace) {
+                Ok(d) => {
+                    let d = d.unwrap_or(0);
+                    if d > v - at_prev_flush {
+                        bad = Some(("C10:delta-exceeds-what-was-added:after-switch-to-absolute".into(), format!("a delta of {} was sent although the absolute value advanced by only {} since the previous flush", d, v - at_prev_flush)));
+                    }
+                    sent2 += d;
+                    at_prev_flush = v;
+                }
+                Err(e) => bad = Some(("C10:undecodable-flush-output".into(), e)),
+            }
+        }
+        if bad.is_none() && sent2 != v - first {
+            bad = Some(("C10:counter-sum-differs:after-switch-to-absolute".into(), format!("absolute values went from {} to {}, deltas sent add up to {}", first, v, sent2)));
+        }
+        rep.case(mix(mix(total, first), v ^ (aggressive as u64) << 60), true);
+        if let Some((sig, what)) = bad {
+            rep.violation(sig, jo! {"what" => what, "history" => J::A(trace.iter().map(|t| J::s(t.clone())).collect()), "mode" => if aggressive {"aggressive"} else {"conservative"}});
+        } else if rep.want_sample() {
+            rep.sample(jo! {"mixed_mode_counter" => true, "history" => J::A(trace.iter().take(14).map(|t| J::s(t.clone())).collect())});
+        }
+    }
+}
+
 fn run_flush(a: &Args) -> Report {
     let mut rep = Report::new("C10", &a.leg, a.seed);
     rt::quiet_panics();
     let mut r = Rng::new(a.shard_seed());
+    mixed_mode(a, &mut rep, &mut r);
     let trials = a.budget(2500, 250_000);
     let mut sigs = HashSet::new();
     let mut wins: HashMap<String, u64> = HashMap::new();
